@@ -176,7 +176,8 @@ def reader_range_case(case, V, res, rng):
         stream = "lf" if rng.random() < 0.5 else "ap"
         n = int(rng.choice([16, 40, 64]))
         ns = int(rng.integers(80, 200))
-        aimax, maxint = ((0.5, 8192), (0.62, 2048), (0.62, 8192), (0.6, 512))[int(rng.integers(0, 4))] if kind.startswith("NP2") else (0.6, 512)
+        aimax, maxint = ((0.5, 8192), (0.62, 2048), (0.62, 8192), (0.6, 512))[int(rng.integers(0, 4))] if kind.startswith("NP2") else \
+            ((0.6, 512), (0.6, 1024), (0.6, 256), (0.6, 512))[(j + case["seed"]) % 4]   # NP1-family headers may announce their own imMaxInt
         p = float(rng.choice([0.2, 0.25, 0.5]))
         kcrit = kcrit_of(p, n)
         raw = rng.integers(-int(0.3 * maxint), int(0.3 * maxint) + 1, (ns, n + 1)).astype(np.int16)
@@ -198,7 +199,9 @@ def reader_range_case(case, V, res, rng):
                       counter="reader_ranges_checked")
             data = sr[:, :n].T
             flags, mute = V.saturation(data, max_voltage=sr.range_volts[:n], v_per_sec=1e9, fs=sr.fs, proportion=p)
-            ref = reference_flags(data, true_range, 1e9, sr.fs, p)
+            # the rule, applied to the voltages the samples stand for (raw counts x aimax / maxint / gain, computed here from the header values)
+            volts = (raw[:, :n].astype(np.float64) * rec.s2v[:n][None, :]).T
+            ref = reference_flags(volts, true_range, 1e9, sr.fs, p)
             res.check(np.array_equal(ref, want), "harness:reader-range-construction", f"{label}: construction and reference disagree")
             res.check(np.array_equal(np.asarray(flags, bool), ref), "saturation:flags:reader-range",
                       f"{label}: with the recording's own range_volts, flagged {np.flatnonzero(flags)[:8].tolist()} but more than {p:.0%} of channels exceed 98 % of THEIR "
@@ -226,7 +229,10 @@ def pipeline_case(case, V, res, rng):
     stride = nbatch - 2048
     ns = int(rng.integers(9000, 15000))
     kind = str(rng.choice(["3B2", "NP2.1"]))
-    rec = G.make(rng, kind=kind, sites=G.draw_sites(rng, kind, n, "dense"), ns=ns, raw=np.zeros((1, 1), np.int16))
+    if case["seed"] % 2 == 1:
+        kind = "3B2"        # every run holds an NP1-family recording whose header announces its own imMaxInt
+    maxint = None if kind != "3B2" else (512, 1024, 256, None)[case["seed"] % 4]
+    rec = G.make(rng, kind=kind, sites=G.draw_sites(rng, kind, n, "dense"), ns=ns, raw=np.zeros((1, 1), np.int16), maxint=maxint)
     s2v = rec.s2v[:n]
     x = rng.standard_normal((ns, n)) * 12e-6 + rng.standard_normal((ns, 1)) * 20e-6
     raw = np.clip(np.round(x / s2v[None, :]), -32768, 32767).astype(np.int16)
@@ -239,7 +245,7 @@ def pipeline_case(case, V, res, rng):
         runs.append((a, a + ln))
     rec.raw = np.ascontiguousarray(np.c_[raw, G.sync_words(rng, (ns, 1))])
     b = G.write(rec, d / "rec")
-    label = f"{kind} ns={ns} nbatch={nbatch}: full-scale runs at {runs}"
+    label = f"{kind} imMaxInt={rec.maxint} ns={ns} nbatch={nbatch}: full-scale runs at {runs}"
     try:
         out = d / "out" / "destriped.bin"
         out.parent.mkdir()
